@@ -81,6 +81,10 @@ def main():
         head = subprocess.run(["git", "-C", common.REPO, "rev-parse", "HEAD"], capture_output=True, text=True).stdout.strip()
         json.dump({"repo_head": head, "digests": digest_tree()}, open(PIN_FILE, "w"), indent=0, sort_keys=True)
         print("pinned", len(digest_tree()), "units at", head)
+        # the generated tables of the pinned source (restored by every check that does not own them, harness/main.py)
+        import shutil
+        for name in ("Effects.lean", "LexerRules.lean"):
+            shutil.copy(os.path.join(common.LEAN, "JaqalModel", "Generated", name), os.path.join(common.ROOT, "harness", "pinned_tables", name))
     else:
         print(json.dumps(drift(), indent=1))
 
